@@ -82,6 +82,14 @@ def run(ctx):
             w = 'Accepted' if S.elements[p][1] else 'IllegalText'
             if r != w and p not in unknown:
                 dev('TEXT', p, None, r, w, {'element': p, 'call': kind})
+            # whether an element takes character content does not depend on the string: the empty string and white space likewise
+            for s_ in ('', ' ', '\n'):
+                r0 = outcome(lambda: getattr(mk(p), kind)(s_)); ctx.oracle_cases += 1
+                ctx.corr('%s(%r) on %s:%s' % ((kind, s_) + p), None, m, r0)
+                if r0 != r: ctx.violation('text-check-depends-on-the-string', {'element': p, 'call': kind, 'string': s_}, r0, r, {'call': kind})
+            kw_ = 'text' if kind == 'addText' else 'cdata'
+            rk = [outcome(lambda: Element(qname=p, check_grammar=True, **{kw_: s_})) for s_ in ('x', '', ' ')]; ctx.oracle_cases += 3
+            if len(set(rk)) != 1: ctx.violation('text-check-depends-on-the-string', {'element': p, 'call': 'constructor ' + kw_ + '=', 'strings': ['x', '', ' ']}, rk, 'one outcome', {'call': kind})
             if r != 'Accepted':
                 ctx.nt(('text', p)); ctx.bump('text-refused')
                 r2 = outcome(lambda: getattr(mk(p), kind)('x', check_grammar=False))
